@@ -34,6 +34,18 @@ Theorem C14_bound_fixed_config : forall r part cfg x0 ops w0 rs x w,
   blen (c_out (x_codec x)) <= cfg_max_write_buffer_size cfg.
 Proof. exact c14_bound_fixed_config. Qed.
 
+(* one call at a time, from any bounded state: the bound is kept by every op, set_config included as
+   long as the new limit is not below what the buffer holds *)
+Theorem C14_bound_step : forall x o w res x' w',
+  run_op x o w = (res, x', w') ->
+  (forall wbs max, o = OpSetBuf wbs max -> wbs < max -> blen (c_out (x_codec x)) <= max) ->
+  blen (c_out (x_codec x)) <= c_max_out (x_codec x) ->
+  blen (c_out (x_codec x')) <= c_max_out (x_codec x').
+Proof.
+  intros x o w res x' w' H Hf. apply (run_op_bounded x o w res x' w' H).
+  destruct o; cbn [setbuf_fits]; auto. intros Hv. exact (Hf _ _ eq_refl Hv).
+Qed.
+
 (* all histories without exception: never more than the largest limit ever configured *)
 Theorem C14_bound_hist : forall r part cfg x0 ops w0 rs x w,
   ctx_new r part cfg = Some x0 -> run_ops x0 ops w0 = (rs, x, w) ->
@@ -53,6 +65,15 @@ Theorem C14_bound_shrink_refuted :
     ctx_new Server [] cfg = Some x0 /\ run_ops x0 ops w0 = (rs, x, w) /\
     c_max_out (x_codec x) < blen (c_out (x_codec x)).
 Proof. exact c14_bound_shrink_refuted. Qed.
+
+(* the pending slot is empty or holds exactly one automatic control frame (a Pong or a Close) *)
+Theorem C14_slot_ctl : forall r part cfg x0 ops w0 rs x w,
+  ctx_new r part cfg = Some x0 -> run_ops x0 ops w0 = (rs, x, w) ->
+  match x_additional x with
+  | None => True
+  | Some a => h_opcode (f_hdr a) = OCtl Pong \/ h_opcode (f_hdr a) = OCtl Close
+  end.
+Proof. exact c14_slot_ctl. Qed.
 
 (* ---- WriteBufferFull ---- *)
 
@@ -215,13 +236,20 @@ Proof.
   split; [vm_compute; reflexivity|]. split; [vm_compute; reflexivity|]. vm_compute; reflexivity.
 Qed.
 
+(* C14_bound's side condition is satisfiable with a set_config in the history *)
+Example C14_ex_nondecreasing :
+  setbuf_nondecreasing 12 [OpWrite (ex_bin 5); OpSetBuf 5 20; OpSetBuf 30 20; OpFlush; OpSetBuf 0 20].
+Proof. cbn. repeat split; discriminate. Qed.
+
 Print Assumptions C14_len_exact.
 Print Assumptions C14_format_into_buf.
 Print Assumptions C14_bound.
 Print Assumptions C14_bound_fixed_config.
+Print Assumptions C14_bound_step.
 Print Assumptions C14_bound_hist.
 Print Assumptions C14_no_growth.
 Print Assumptions C14_bound_shrink_refuted.
+Print Assumptions C14_slot_ctl.
 Print Assumptions C14_full.
 Print Assumptions C14_full_iff.
 Print Assumptions C14_accept_when_room.
